@@ -50,7 +50,7 @@ REQUIRED = ['cmp_total', 'cmp_prim', 'divrem_in_domain', 'edge_pairs', 'suites',
 
 NW = 16
 # primitives: random pairs per worker (default build, CT-multiplication build)
-PRIM = {'quick': (500000, 125000), 'thorough': (30000000, 7500000)}
+PRIM = {'quick': (500000, 125000), 'thorough': (60000000, 15000000)}
 
 
 def jobs(tier, seed):
